@@ -37,7 +37,10 @@ def run(run):
     run.rule = ("generated programs (l1/l2/l3 profiles) x every intermediate frame/series variable as cut point x {persist, to_delayed->from_delayed (with and without divisions), legacy round trip, optimize-then-continue}: "
                 "the remaining operations are re-applied to the re-imported collection; final result, schema and (when both known) divisions vs the uncut run; non-trivial = cut strictly inside the program; "
                 "two-head queries (source layouts x dtypes x head pairs x index-aligned tails) cut in front of the binary step on the left, the right or both inputs "
-                "with equal or mixed kinds of cut, vs the uncut run (harness/c17_multi.py)")
+                "with equal or mixed kinds of cut, vs the uncut run (harness/c17_multi.py); "
+                "cuts in front of an index-aligned step that carries keywords (method operators and comparison methods with axis / level / fill_value, combine with func / fill_value / overwrite, "
+                "where / mask with other, fillna, align with join / axis / fill_value, map, combine_first) over the four alignment lowerings "
+                "(equal known divisions, single partitions, unknown divisions, different divisions), vs the uncut run (harness/c17_kwargs.py)")
     run.proofs("PropC17.v")
     quick = run.tier == "quick"
     n = 50 if quick else 1000
@@ -218,5 +221,28 @@ def run(run):
     # cuts in front of a multi-input (index-aligned) step: on one input, on the other, on both; same or mixed kinds of cut
     import c17_multi
     c17_multi.run_family(run, rt, C)
+    # cuts in front of an aligned step whose keywords are away from their defaults: the re-imported operand turns the
+    # element-wise plan of the step into an alignment plan, which has to hand the keywords on
+    import c17_kwargs
+    c17_kwargs.run_family(run, rt, C)
     run.section("cuts", programs=n, cut_executions=ncut, node_kinds=kinds, cut_kinds=list(C), selection_continuations=nsel, parquet_cut_cases=npq, cut_together_cases=nshare)
     run.sample({"cut": "persist after step 1", "program": "v1=filter(t0,...); v2=assign(v1,...); v3=sum(v2)"})
+
+
+def replay(path):
+    """Replays of the keyword-carrying aligned steps (the other kinds are replayed by a run with the recorded seed)."""
+    import json
+    import rt
+    import c17_kwargs
+    with open(path) as f:
+        d = json.load(f)
+    case = d.get("case") or {}
+    if not str(case.get("kind", "")).startswith("cut-keywords"):
+        print("C17: replay by `VERIF_SEED=%s ./check C17 --tier %s`" % (d.get("seed"), d.get("tier")))
+        return 2
+    bad = c17_kwargs.replay_case(rt, cuts(rt), case)
+    if not bad:
+        print("C17 replay: the cut is transparent for %s" % json.dumps(case["step"]))
+        return 0
+    print("C17 replay: %s" % bad[0][:1500])
+    return 1
